@@ -35,9 +35,28 @@ theorem pl_seqSep_brk (w col i : Nat) (st : List Frame) :
   simp only [seqSepDoc, pl_concat, mkFrames, List.cons_append, List.nil_append, pl_ifBreak_brk, pl_nil,
     pl_line_brk]
 
+/-- no step of the (restricted) fragment is "tall": a chain of several terms has no call-ender before
+    its last term -/
+theorem isTall_false {t : T} (hwf : T.WF t) (body : Doc) : isTall t body = false := by
+  cases t with
+  | chain f more =>
+    obtain ⟨_, _, _, _, hok⟩ := hwf
+    simp only [chainOk, Bool.and_eq_true] at hok
+    have : ((f :: more).dropLast.any isIdent) = false := by
+      have h := hok.1
+      simp only [List.all_eq_true, Bool.not_eq_true'] at h
+      simp only [List.any_eq_false]
+      intro x hx; simp [h x hx]
+    simp [isTall, this]
+  | leaf _ => rfl
+  | int _ => rfl
+  | bin _ => rfl
+  | str _ => rfl
+  | tup _ _ => rfl
+
 theorem restPrintAs (ts : List T) (hwf : ∀ t ∈ ts, T.WF t) :
     ∀ (w col i : Nat) (m : Mode) (st : List Frame),
-      ∃ ps' ps col', printLoop w col (mkFrames i m (restDocs ts) ++ st) [] = ps' ++ printLoop w col' st [] ∧
+      ∃ ps' ps col', printLoop w col (mkFrames i m (restDocs false ts) ++ st) [] = ps' ++ printLoop w col' st [] ∧
         renderPieces ps' = renderPieces ps ∧ RestP (isBrk m) ts ps := by
   induction ts with
   | nil =>
@@ -45,20 +64,22 @@ theorem restPrintAs (ts : List T) (hwf : ∀ t ∈ ts, T.WF t) :
     exact ⟨[], [], col, by simp [restDocs, mkFrames], rfl, .nil⟩
   | cons t ts ih =>
     intro w col i m st
-    have ht := printsAs_fieldDoc (printsAs_chainDoc (printLoop_term t (hwf t (by simp))))
+    have ht : PrintsAs (fieldDoc (chainDocOf t)) (LayP t) :=
+      printsAs_fieldDoc (printsAs_chainDocOf (printLoop_term t (hwf t (by simp))))
     have ih' := ih (fun x hx => hwf x (by simp [hx]))
-    simp only [restDocs, mkFrames, List.cons_append]
+    simp only [restDocs, isTall_false (hwf t (by simp)), Bool.or_self, Bool.false_eq_true, if_false,
+      mkFrames, List.cons_append, List.nil_append]
     cases m with
     | flat =>
       rw [pl_seqSep_flat]
-      obtain ⟨ps', ps, col1, hp, hr, hl⟩ := ht w (col + 1 + 1) i .flat (mkFrames i .flat (restDocs ts) ++ st)
+      obtain ⟨ps', ps, col1, hp, hr, hl⟩ := ht w (col + 1 + 1) i .flat (mkFrames i .flat (restDocs false ts) ++ st)
       obtain ⟨rs', rs, col2, hq, hr2, hrest⟩ := ih' w col1 i .flat st
       rw [hp, hq]
       exact ⟨.atom [','] :: .sp :: (ps' ++ rs'), .atom [','] :: .sp :: (ps ++ rs), col2, by simp,
         by simp [renderPieces_append, renderPieces, hr, hr2], .consFlat hl hrest⟩
     | brk =>
       rw [pl_seqSep_brk]
-      obtain ⟨ps', ps, col1, hp, hr, hl⟩ := ht w i i .brk (mkFrames i .brk (restDocs ts) ++ st)
+      obtain ⟨ps', ps, col1, hp, hr, hl⟩ := ht w i i .brk (mkFrames i .brk (restDocs false ts) ++ st)
       obtain ⟨rs', rs, col2, hq, hr2, hrest⟩ := ih' w col1 i .brk st
       rw [hp, hq]
       exact ⟨.nl i :: (ps' ++ rs'), .nl i :: (ps ++ rs), col2, by simp,
@@ -71,15 +92,16 @@ theorem printsAs_sequence {ts : List T} (hwf : WFProg ts) : PrintsAs (sequenceDo
   | nil => exact absurd rfl hne
   | cons t ts =>
     intro w col i m st
-    unfold sequenceDoc Doc.mkGroup
+    simp only [sequenceDoc, Doc.mkGroup, isTall_false (hall t (by simp))]
     obtain ⟨m', hg⟩ := pl_group w col i m st
-      (.concat [fieldDoc (chainDoc (termDoc t)), .nest 0 (.concat (restDocs ts))])
-      (forcesBreak (.concat [fieldDoc (chainDoc (termDoc t)), .nest 0 (.concat (restDocs ts))]))
+      (.concat [fieldDoc (chainDocOf t), .nest 0 (.concat (restDocs false ts))])
+      (forcesBreak (.concat [fieldDoc (chainDocOf t), .nest 0 (.concat (restDocs false ts))]))
     rw [hg, pl_concat]
     simp only [mkFrames, List.cons_append, List.nil_append]
-    obtain ⟨ps', ps, col1, hp, hr, hl⟩ :=
-      printsAs_fieldDoc (printsAs_chainDoc (printLoop_term t (hall t (by simp)))) w col i m'
-        (⟨i, m', .nest 0 (.concat (restDocs ts))⟩ :: st)
+    have hfd : PrintsAs (fieldDoc (chainDocOf t)) (LayP t) :=
+      printsAs_fieldDoc (printsAs_chainDocOf (printLoop_term t (hall t (by simp))))
+    obtain ⟨ps', ps, col1, hp, hr, hl⟩ := hfd w col i m'
+        (⟨i, m', .nest 0 (.concat (restDocs false ts))⟩ :: st)
     rw [hp, pl_nest, pl_concat, Nat.add_zero]
     obtain ⟨rs', rs, col2, hq, hr2, hrest⟩ :=
       restPrintAs ts (fun x hx => hall x (by simp [hx])) w col1 i m' st
@@ -288,19 +310,20 @@ theorem stop_nl_headOk (k : Nat) {s : Str} (h : HeadOk s) : Stop ('\n' :: (List.
   exact headOk_not_paren h
 
 theorem restP_stop {b : Bool} {ts : List T} {ps : List Piece} (h : RestP b ts ps) {rest : Str}
-    (hs : Stop rest) : Stop (renderPieces ps ++ rest) := by
+    (hs : StopC rest) : StopC (renderPieces ps ++ rest) := by
   cases h with
   | nil => simpa [renderPieces] using hs
-  | consFlat hl _ => simpa [renderPieces, Piece.render] using stop_comma _
+  | consFlat hl _ => simpa [renderPieces, Piece.render] using stopC_comma _
   | consBrk k hl hrest0 =>
     rename_i t ts ps0 rest0
-    have := stop_nl_headOk k (((layP_head hl).append (renderPieces rest0)).append rest)
-    simpa [renderPieces, Piece.render, renderPieces_append] using this
+    have hh := ((layP_head hl).append (renderPieces rest0)).append rest
+    have := And.intro (stop_nl_headOk k hh) (chainSep_fails_nl k (.inl hh))
+    simpa [StopC, renderPieces, Piece.render, renderPieces_append] using this
 
 theorem rest_lay {b : Bool} {ts : List T} {ps : List Piece} (h : RestP b ts ps) :
-    ∀ (n : Nat) (rest : Str), (renderPieces ps).length < n → Stop rest →
-      sepTail seqSep (termP n) rest = .ok [] rest →
-      sepTail seqSep (termP n) (renderPieces ps ++ rest) = .ok ts rest := by
+    ∀ (n : Nat) (rest : Str), (renderPieces ps).length < n → StopC rest →
+      sepTail seqSep (chainP (termP n)) rest = .ok [] rest →
+      sepTail seqSep (chainP (termP n)) (renderPieces ps ++ rest) = .ok ts rest := by
   induction h with
   | nil => intro n rest _ _ hend; simpa [renderPieces] using hend
   | consFlat hl hrest ih =>
@@ -312,9 +335,9 @@ theorem rest_lay {b : Bool} {ts : List T} {ps : List Piece} (h : RestP b ts ps) 
     have hl1 : (renderPieces ps0).length < n ∧ (renderPieces rest0).length < n := by
       simp [renderPieces, Piece.render, renderPieces_append] at hlen; omega
     rw [hsplit]
-    exact sepTail_cons sound_seqSep (termP_sound n)
+    exact sepTail_cons sound_seqSep (chainP_sound (termP_sound n))
       (seqSep_comma ((layP_head hl).append _)) (by simp; omega)
-      (termP_lay hl n _ hl1.1 (restP_stop hrest hs)) (ih n rest hl1.2 hs hend)
+      (chainP_lay hl n _ hl1.1 (restP_stop hrest hs)) (ih n rest hl1.2 hs hend)
   | consBrk k hl hrest ih =>
     rename_i t ts ps0 rest0
     intro n rest hlen hs hend
@@ -324,25 +347,20 @@ theorem rest_lay {b : Bool} {ts : List T} {ps : List Piece} (h : RestP b ts ps) 
     have hl1 : (renderPieces ps0).length < n ∧ (renderPieces rest0).length < n := by
       simp [renderPieces, Piece.render, renderPieces_append] at hlen; omega
     rw [hsplit]
-    exact sepTail_cons sound_seqSep (termP_sound n)
+    exact sepTail_cons sound_seqSep (chainP_sound (termP_sound n))
       (seqSep_nl k ((layP_head hl).append _)) (by simp; omega)
-      (termP_lay hl n _ hl1.1 (restP_stop hrest hs)) (ih n rest hl1.2 hs hend)
-
-theorem sepList1_cons {α β : Type} {sep : P β} {p : P α} {i r r' : Str} {a : α} {as : List α}
-    (h : p i = .ok a r) (ht : sepTail sep p r = .ok as r') :
-    sepList1 sep p i = .ok (a :: as) r' := by
-  unfold sepTail at ht; simp [sepList1, h, ht]
+      (chainP_lay hl n _ hl1.1 (restP_stop hrest hs)) (ih n rest hl1.2 hs hend)
 
 /-- `separated_list1(seq_sep, chain)` reads a layout of the sequence, up to a `rest` at which the
     list ends (`hend`) -/
 theorem seqP_lay {ts : List T} {ps : List Piece} (h : SeqP ts ps) (n : Nat) (rest : Str)
-    (hlen : (renderPieces ps).length < n) (hs : Stop rest)
-    (hend : sepTail seqSep (termP n) rest = .ok [] rest) :
-    sepList1 seqSep (termP n) (renderPieces ps ++ rest) = .ok ts rest := by
+    (hlen : (renderPieces ps).length < n) (hs : StopC rest)
+    (hend : sepTail seqSep (chainP (termP n)) rest = .ok [] rest) :
+    sepList1 seqSep (chainP (termP n)) (renderPieces ps ++ rest) = .ok ts rest := by
   obtain ⟨b, t, ts', p1, rs, rfl, rfl, hl, hrest⟩ := h
   have hl1 : (renderPieces p1).length < n ∧ (renderPieces rs).length < n := by
     simp [renderPieces_append] at hlen; omega
   rw [renderPieces_append, List.append_assoc]
-  exact sepList1_cons (termP_lay hl n _ hl1.1 (restP_stop hrest hs)) (rest_lay hrest n rest hl1.2 hs hend)
+  exact sepList1_cons (chainP_lay hl n _ hl1.1 (restP_stop hrest hs)) (rest_lay hrest n rest hl1.2 hs hend)
 
 end QM.Frag
